@@ -18,6 +18,12 @@ def ex_pending(repo):
     return [s.item(r'^pub struct PendingTxs'), s.item(r'^impl PendingTxs \{')]
 
 
+def ex_resolvetx(repo):
+    s = Source(repo, 'src/verify.rs')
+    p = s.item(r'^fn parse_dep_group_data'); p.sub(r'slice: &\[u8\]', 'slice: &Bytes'); p.sub(r'"[^"]*"\.to_owned\(\)', 'String::new()')
+    return [s.item(r'^fn resolve_tx'), p]
+
+
 def mir_send_tx(cfg):
     import mirpaths
     q = mirpaths.Query(cfg)
@@ -61,6 +67,18 @@ def obligations():
         KModelOb('O18.3-resubmission', 'pending', 'resubmission', 'PendingTxs (real text): a transaction that was already announced to a peer and is submitted AGAIN (send_transaction does '
                  'not de-duplicate) is not announced to that peer a second time', ex_pending, 'arbitrary pool (limit 1..3, 4 identities, 2 peers), re-push of a member, one announce', cuts=CUTS,
                  timeout=1200, mem_gb=10, min_covers=1, weight=3),
+        KModelOb('O18.4-resolve', 'resolvetx', 'resolve', 'resolve_tx + parse_dep_group_data (real text; the resolution step of send_transaction / estimate_cycles): Ok iff every input and cell dep '
+                 '(dep groups expanded through their decoded data) resolves to a LIVE cell of the cell provider and no out point is spent twice by the inputs; the resolved lists are exactly those cells in order; '
+                 'otherwise the error of the first failing out point (Dead / Unknown / InvalidDepGroup)', ex_resolvetx,
+                 '<= 2 inputs, <= 1 cell dep (code or dep group of <= 2 out points), 3 out-point identities; the cell provider and the dep-group decoding are arbitrary pure functions',
+                 cuts=['CellProvider (storage + pending pool) -> arbitrary pure function (out point, eager) -> Live / Dead / Unknown', 'molecule OutPointVec::from_slice -> arbitrary fixed function of the data identity',
+                       'HashMap (entry API) / HashSet / Vec -> array-backed models', 'textual: parse_dep_group_data(slice: &[u8]) -> (slice: &Bytes); its error strings "..".to_owned() -> String::new()'], timeout=900, mem_gb=10, min_covers=3, weight=4, tiers=('quick',), rustflags='--cfg rt_small'),
+        KModelOb('O18.4-resolve-t', 'resolvetx', 'resolve', 'resolve_tx + parse_dep_group_data (real text; the resolution step of send_transaction / estimate_cycles): Ok iff every input and cell dep '
+                 '(dep groups expanded through their decoded data) resolves to a LIVE cell of the cell provider and no out point is spent twice by the inputs; the resolved lists are exactly those cells in order; '
+                 'otherwise the error of the first failing out point (Dead / Unknown / InvalidDepGroup)', ex_resolvetx,
+                 '<= 2 inputs, <= 2 cell deps (code or dep group of <= 2 out points), 4 out-point identities; the cell provider and the dep-group decoding are arbitrary pure functions',
+                 cuts=['CellProvider (storage + pending pool) -> arbitrary pure function (out point, eager) -> Live / Dead / Unknown', 'molecule OutPointVec::from_slice -> arbitrary fixed function of the data identity',
+                       'HashMap (entry API) / HashSet / Vec -> array-backed models', 'textual: parse_dep_group_data(slice: &[u8]) -> (slice: &Bytes); its error strings "..".to_owned() -> String::new()'], timeout=2400, mem_gb=12, min_covers=3, weight=5, tiers=('thorough',)),
         MirOb('O18.2-ok-only-verified', 'TransactionRpcImpl::send_transaction returns Ok only through the Ok edge of verify_tx (no early success return, e.g. for a hash that is already pending: the hash does not cover the witnesses)',
               r'service\.rs:\d+:\d+: \d+:\d+>::send_transaction\(', mir_ok_only_verified, src_rel=SERVICE),
         MirOb('O18.2-estimate-only-verified', 'ChainRpcImpl::estimate_cycles returns Ok only through the Ok edge of verify_tx',
